@@ -45,6 +45,9 @@ class Check(PropertyCheck):
             if _i % 100 == 17:
                 yield self.long_machine_scenario(rng)
                 continue
+            if _i == 31:
+                yield Scenario(["new", "mark degenerate 0"], {"family": "degenerate", "accepted": 0})
+                continue
             if _i % 20 == 9:
                 yield Scenario(["new", f"mark raiser {rng.randint(0, 10**6)}"], {"family": "raiser", "accepted": 0})
                 continue
@@ -157,6 +160,20 @@ class Check(PropertyCheck):
         res = []
         if line.startswith("mark raiser"):
             return oracles.raiser_episode(int(line.split()[2]))["C06"]
+        if line.startswith("mark degenerate"):
+            # an instance without operations: its schedule is complete from the start, the current time is the makespan 0 - under any filter
+            import jsl as _jsl
+            out_ = []
+            for shape in ([], [[]], [[], []]):
+                for flt in (None, _jsl.filter_dominated_operations, _jsl.filter_non_idle_machines):
+                    try:
+                        dd = _jsl.Dispatcher(_jsl.JobShopInstance([list(j) for j in shape]), ready_operations_filter=flt)
+                        if dd.current_time() != 0 or dd.schedule.makespan() != 0 or list(dd.completed_operations()) or \
+                                list(dd.uncompleted_operations()):
+                            out_.append(("final", f"instance {shape}: current_time() = {dd.current_time()}, makespan {dd.schedule.makespan()}"))
+                    except Exception as e:  # pylint: disable=broad-except
+                        out_.append(("final", f"instance {shape} (no operations): the clock of its dispatcher raised {type(e).__name__}: {e}"))
+            return out_[:2]
         d = impl.dispatcher
         if line == "mark episode":
             ctx.pop("t", None)
